@@ -19,6 +19,39 @@ PROGS = {
 }
 
 
+def like_cases(rng, nbase):
+    """User Like patterns on strings (matching and failing values) in every position, then `nbase` random bases."""
+    import positions as P
+    import tgen
+    cases = []
+    k = 0
+    extra = "(v %s (int 0)) (v %s (str %s)) (m %s %s)" % (tgen.hexs("0"), tgen.hexs('"k"'), tgen.hexs("k"), tgen.hexs("get"), tgen.hexs("field:f"))
+    bases = []
+    for i in range(4 + nbase):
+        g = tgen.Gen(rng, allow_regex=False)
+        t = ("string",) if i < 4 else g.gen_type(rng.choice([0, 1, 1]), allow=("atom", "option", "vec", "tuple", "struct", "enum"))
+        v0 = g.gen_val(t)
+        pg = tgen.PatGen(g, rng, forms=("like", "string", "eq"), root_is_ref=True)
+        if i < 4:
+            pg.force = "like"
+        pat = pg.pat(v0, t, depth=1)
+        v = ("str", "zz" + v0[1]) if i in (1, 3) else (v0 if i < 4 or rng.random() < 0.5 else g.perturb(v0, t, 0.6))
+        bases.append((g, t, v, pg, pat))
+    for b, (g, t, v, pg, pat) in enumerate(bases):
+        for pos in P.POSITIONS:
+            c = t3.Case()
+            c.id = k
+            k += 1
+            c.base, c.position, c.gen, c.ty, c.value = b, pos, g, t, v
+            c.inner_pattern = pat
+            c.forms = dict(pg.forms_used)
+            c.meanings = pg.meanings_sexp()[:-1] + " " + extra + ")"
+            wd, wt, wv, wp, ws = P.wrap(pos, g, t, v, pat)
+            t3.finish_case(c, g.decls() + "\n" + wd, wt, wv, ws, wp)
+            cases.append(c)
+    return cases
+
+
 def feature_tree(default_features):
     proj = e2e.Project("c16tree", default_features=default_features)
     try:
@@ -69,6 +102,26 @@ def run(ck):
                    2 * len(a), len({c.text + c.value_text for c in a}), diff, dist,
                    samples=[dict(invocation="assert_struct!(%s)" % a[0].text[:150], default=a[0].got[0], no_default=b[0].got[0])],
                    rule="type-directed seeded generation with the regex forms disabled (user Like impls kept); distinct = distinct (invocation, value)")
+    # --- user Like patterns in every position, matching and failing: verdict AND report text must not depend on the configuration
+    import positions as P
+    la = t3.run_corpus(ck, "c16like", 4 if ck.tier == "quick" else 60, per_bin=20, allow_regex=False, positions=like_cases, default_features=True)
+    lb = t3.run_corpus(ck, "c16like", 4 if ck.tier == "quick" else 60, per_bin=20, allow_regex=False, positions=like_cases, default_features=False)
+    ldist = {}
+    ldiff = 0
+    for ca, cb in zip(la, lb):
+        ga = (ca.got[0], [tuple(e[:4]) for e in ca.got[1]])
+        gb = (cb.got[0], [tuple(e[:4]) for e in cb.got[1]])
+        k_ = "%s %s/%s" % ("like" if "like" in ca.forms else "other", ca.got[0], cb.got[0])
+        ldist[k_] = ldist.get(k_, 0) + 1
+        if ga != gb:
+            ldiff += 1
+            ck.report("config-dependent:%s:%s" % (ca.position, "+".join(sorted(ca.forms))[:40]),
+                      "an assertion with a user-written Like pattern behaves or reports differently with default features off",
+                      dict(with_default=t3.describe(ca), without_default=t3.describe(cb), position=ca.position))
+    ck.corr_record("T3 user Like patterns in 17 positions, two configurations (verdicts and recorded entries, label texts included, compared)",
+                   2 * len(la), len({c.text + c.value_text for c in la}), ldiff, ldist,
+                   samples=[dict(invocation="assert_struct!(%s)" % la[0].text[:150], default=la[0].got[0], no_default=lb[0].got[0])] if la else [],
+                   rule="four string bases with a forced user Like pattern (two matching, two failing) plus seeded bases with the forms restricted to user Like / string literal / equality, wrapped in every position; distinct = distinct (invocation, value)")
     # --- accept / reject of the Like forms per configuration
     adist = {}
     for d in (True, False):
